@@ -1105,6 +1105,11 @@ pub fn body(input: ParseString) -> ParseResult<Body> {
     // Try parsing a section
     match section(new_input.clone()) {
       Ok((input, sect)) => {
+        // A section that consumed nothing (e.g. at a stray mika section close)
+        // would be parsed again forever; leave the rest of the input unparsed.
+        if input.cursor == new_input.cursor {
+          break;
+        }
         //println!("Parsed section: {:#?}", sect);
         sections.push(sect);
         new_input = input;
